@@ -525,7 +525,8 @@ class LoaderBase(ABC):
             A loader instance of the same type with updated molecules.
         """
         _backend = backend or Backend()
-        _max_shifts_px = np.asarray(max_shifts) / self.scale
+        max_shifts = _normalize_max_shifts(max_shifts)
+        _max_shifts_px = tuple(np.asarray(max_shifts) / self.scale)
 
         if isinstance(templates, ImageProvider):
             _templates = templates(self.scale)
